@@ -169,6 +169,8 @@ func ledgerCases(id string, thorough bool) []ledgerCase {
 	if id == "C04" {
 		// magnitude dimension (c04_mag.go): amounts around the integer-width boundaries
 		cases = append(cases, c04MagCases(thorough, used)...)
+		// account-existence dimension (c04_exist.go): creation targets / recipients that hold coins without an account record
+		cases = append(cases, c04ExistCases(thorough)...)
 	}
 	if thorough {
 		// three-tx blocks with a cosmos tx in the middle
@@ -380,6 +382,9 @@ func runLedgerCheck(id string, replay string) int {
 			if id == "C04" && probe.Part == "recipient-sanity" {
 				return c04RecipientSanity(run)
 			}
+			if id == "C04" && probe.Part == "exist-sanity" {
+				return c04ExistSanity(run)
+			}
 			var c ledgerCase
 			if err := json.Unmarshal(raw, &c); err != nil {
 				fmt.Fprintln(os.Stderr, err)
@@ -408,6 +413,11 @@ func runLedgerCheck(id string, replay string) int {
 				run.Fail(f)
 			}
 		}
+		if id == "C04" && shard == (n-1)/2 {
+			for _, f := range c04ExistSanity(run) {
+				run.Fail(f)
+			}
+		}
 		for i, c := range cases {
 			if i%n != shard {
 				continue
@@ -424,6 +434,9 @@ func runLedgerCheck(id string, replay string) int {
 			}
 			if id == "C04" && c04IsMagCase(c) {
 				fs = append(fs, c04MagObserve(run, c, bl)...)
+			}
+			if id == "C04" && c.Exist != "" {
+				c04ExistObserve(run, c, bl)
 			}
 			run.Count("transitions", int64(len(c.Blocks)))
 			run.Count("traces_validated_against_impl", 1)
@@ -473,7 +486,7 @@ func runLedgerCheck(id string, replay string) int {
 	singleKinds, pairKinds := ledgerKindSets(id, run.Thorough())
 	recipientRule := ""
 	if id == "C04" {
-		recipientRule = fmt.Sprintf("; kinds = 16 basic kinds + value-recipient kinds <mode>:<recipient> (value %d as top-level `to` = pay, as value-carrying CALL from a gadget contract = forward, whole balance %d of a gadget as SELFDESTRUCT beneficiary = suicide): single-tx blocks and second blocks use pay x all %d module accounts + @self + @wallet and forward/suicide x {@sink, evm, fee_collector, bonded_tokens_pool, distribution}, multi-tx blocks use %s; single-tx blocks both from genesis and after a warm-up block (evm module account exists); 2 more first blocks made of module-recipient txs", RecipientValue, SuicideGadgetFunds, len(ModuleRecipients), map[bool]string{false: "pay/forward/suicide x {evm, fee_collector, bonded_tokens_pool} + forward:@sink", true: "pay/forward/suicide x {evm, fee_collector, bonded_tokens_pool, distribution} + forward:@sink + suicide:@sink"}[run.Thorough()]) + c04MagRule(run.Thorough())
+		recipientRule = fmt.Sprintf("; kinds = 16 basic kinds + value-recipient kinds <mode>:<recipient> (value %d as top-level `to` = pay, as value-carrying CALL from a gadget contract = forward, whole balance %d of a gadget as SELFDESTRUCT beneficiary = suicide): single-tx blocks and second blocks use pay x all %d module accounts + @self + @wallet and forward/suicide x {@sink, evm, fee_collector, bonded_tokens_pool, distribution}, multi-tx blocks use %s; single-tx blocks both from genesis and after a warm-up block (evm module account exists); 2 more first blocks made of module-recipient txs", RecipientValue, SuicideGadgetFunds, len(ModuleRecipients), map[bool]string{false: "pay/forward/suicide x {evm, fee_collector, bonded_tokens_pool} + forward:@sink", true: "pay/forward/suicide x {evm, fee_collector, bonded_tokens_pool, distribution} + forward:@sink + suicide:@sink"}[run.Thorough()]) + c04MagRule(run.Thorough()) + c04ExistRule(run.Thorough())
 	}
 	run.Coverage["rule"] = refundRule[min(2, len(refundRule)):] + " " + fmt.Sprintf("single-tx blocks: full product of %d kinds × %d fee shapes × 4 gas limits {used, used+1, 2×used, 6M} × MaxGas∈{40M,100k}; two-tx blocks: (%d kinds × fee/gas combo)² × {same, different sender} × both worlds%s; two-block histories after fixed first blocks%s%s. distinct_nontrivial = distinct histories in which an unused-gas refund was due or a tx failed after admission", len(singleKinds), len(ledgerFees), len(pairKinds), map[bool]string{true: " (100k world: the 16 basic kinds only)", false: ""}[id == "C04" && !run.Thorough()], map[bool]string{false: "", true: "; three-tx blocks with a Cosmos tx in the middle"}[run.Thorough()], recipientRule)
 	return run.Finish()
